@@ -128,6 +128,17 @@ def readW : List Nat → Outcome (List (Nat × Nat))
 
 def read (b : Bytes) : Outcome (List (Nat × Nat)) := readW (bytesToWords b)
 
+/-- the normal form of a class table: what `Read` makes of what `Append` writes for it (the non-zero
+entries, in the order in which the reader stores them; as a map it is the table without its class-0
+entries) -/
+def nfTab (m : Tab) : List (Nat × Nat) :=
+  match append m with
+  | .ok cb =>
+    match read cb with
+    | .ok es => es
+    | _ => []
+  | _ => []
+
 /-! ### Specification (OpenType chapter 2, "Class Definition Table")
 
 "ClassDefFormat1: classFormat = 1, startGlyphID — first glyph ID of the classValueArray,
